@@ -57,12 +57,13 @@ def cases(tier, seed):
             if "K" not in kv:
                 out.append({"id": f"vmap1d-{kv}", "kind": "vmap1d", "kv": kv})
             out.append({"id": f"wrappers-{kv}", "kind": "wrappers", "kv": kv})
+    out.append({"id": "wrappers-defaults", "kind": "wrapdef"})
     out.append({"id": "helpers", "kind": "helpers", "kv": ""})
     return out
 
 
 def cost(case):
-    return len(case["kv"]) ** 3 * (3 if case["kind"] == "spacemap" else 1)
+    return len(case.get("kv", "abc")) ** 3 * (3 if case["kind"] == "spacemap" else 1)
 
 
 def make_func(kv, output="scalar", rev_body=False):
@@ -391,5 +392,56 @@ def _run_helpers(case):
     return outcome(status="violation" if viols else "ok", violations=viols, states=cnt, transitions=cnt, traces=cnt, digest=digest(dig))
 
 
+def _run_wrapdef(case):
+    """Functions f(a, b, c) with every legal pattern of defaulted and keyword-only parameters x every
+    subset of supplied keywords: the wrapper either rejects the call or returns what binding by name
+    returns (the plain call f(**kw)); a call the plain function rejects must be rejected."""
+    from lcm.functools import allow_args, allow_only_kwargs
+
+    viols, cnt, dig = [], 0, []
+    names = ["a", "b", "c"]
+    supplied = {"a": 1, "b": 2, "c": 3}
+    for nkw in range(4):
+        for dmask in itertools.product([0, 1], repeat=3):
+            parts = []
+            for i, nm in enumerate(names):
+                if i == 3 - nkw:
+                    parts.append("*")
+                parts.append(f"{nm}={7 + i}" if dmask[i] else nm)
+            src = f"def f({', '.join(parts)}):\n    return a * 100 + b * 10 + c\n"
+            ns = {}
+            try:
+                exec(src, ns)
+            except SyntaxError:
+                continue
+            f = ns["f"]
+            for wname, wrap in (("allow_only_kwargs", allow_only_kwargs), ("allow_args", allow_args)):
+                try:
+                    g = wrap(f)
+                except ValueError:
+                    # e.g. f(a=7, *, b, c): the all-positional signature allow_args builds is illegal;
+                    # refusing to wrap is a rejection, not a mis-binding
+                    dig.append("not wrapped")
+                    continue
+                for r in range(4):
+                    for sub in itertools.combinations(names, r):
+                        for order in itertools.permutations(sub):
+                            kw = {k: supplied[k] for k in order}
+                            cnt += 1
+                            try:
+                                ref = f(**kw)
+                            except TypeError:
+                                ref = None
+                            try:
+                                got = g(**kw)
+                            except Exception:
+                                dig.append("rejected")
+                                continue
+                            dig.append(got)
+                            if got != ref and not viols:
+                                viols.append(violation(wname, "defaults", "VALUE", f"{src.splitlines()[0]} called with {kw}: wrapper returned {got}, binding by name gives {'a rejection' if ref is None else ref}"))
+    return outcome(status="violation" if viols else "ok", violations=viols, states=cnt, transitions=cnt, traces=cnt, digest=digest(dig))
+
+
 def run_case(case):
-    return {"productmap": _run_productmap, "vmap1d": _run_vmap1d, "spacemap": _run_spacemap, "wrappers": _run_wrappers, "helpers": _run_helpers}[case["kind"]](case)
+    return {"wrapdef": _run_wrapdef, "productmap": _run_productmap, "vmap1d": _run_vmap1d, "spacemap": _run_spacemap, "wrappers": _run_wrappers, "helpers": _run_helpers}[case["kind"]](case)
